@@ -1206,6 +1206,116 @@ theorem ipv4_exts_rejections_coincide (start : Nat) (pre b : Bytes) :
       · cases he; cases ht
     | panicUnwrap => exact t.elim
 
+/-! #### Ipv6Extensions (`Ipv6Extensions::read` / `from_slice`): the whole extension header chain.
+  Slice side: `Ext.Exts.fromSlice` (the model of C12, `ext.from_slice` correspondence).  The reader returns,
+  per header, the bytes it gathered (`ExtsRead.got`, in reading order) and the next ip number.  Glue
+  (Lemmas/ReadVsSlice.lean): `gathered got` = the concatenation of the gathered bytes; `decodeGot got` =
+  `decode ∘ gather`: every gathered header decoded with the slice decoder of its own type and put into the
+  slot the reader filled; `extsErrText` = canonical text of the two content errors (hop-by-hop header not
+  at the start, authentication header with payload length 0).  Proved by induction along the two loops
+  (`loop_rel`): the reader's free-slot list and the decoder's partially filled struct stay in step
+  (`FreeInv`), including the routing / final-destination-options bookkeeping. -/
+
+/-- the complete comparison: for each outcome of `from_slice` what `read` does on the same bytes
+    (the `unwrap`s of `to_header` are unreachable) -/
+theorem ipv6_exts_read_vs_from_slice (start : Nat) (pre b : Bytes) :
+    match Ext.Exts.fromSlice start b with
+    | .ok (e, next, rest) =>
+      ∃ got, ReadsOk (Reads.ipv6exts start) pre b (b.length - rest.length) { got := got, next := next } ∧
+        b = b.take (b.length - rest.length) ++ rest ∧
+        gathered got = b.take (b.length - rest.length) ∧ decodeGot got = some e
+    | .error (.err (.len _)) => ReadsEof (Reads.ipv6exts start) pre b
+    | .error (.err (.content c)) =>
+      ∃ n, n ≤ b.length ∧ ReadsContent (Reads.ipv6exts start) pre b n (extsErrText c)
+    | .error .panic => False :=
+  ipv6exts_table start pre b
+
+/-- (1) `from_slice` succeeds ⟹ `read` succeeds with the same next ip number, the gathered headers are,
+    concatenated, exactly the bytes in front of `rest` (all consumed, nothing more), and they decode to
+    the same `Ipv6Extensions` -/
+theorem ipv6_exts_read_of_slice (start : Nat) (pre b : Bytes) (e : Ext.Exts) (next : Nat) (rest : Bytes)
+    (hd : Ext.Exts.fromSlice start b = .ok (e, next, rest)) :
+    ∃ got, ReadsOk (Reads.ipv6exts start) pre b (b.length - rest.length) { got := got, next := next } ∧
+      b = b.take (b.length - rest.length) ++ rest ∧
+      gathered got = b.take (b.length - rest.length) ∧ decodeGot got = some e := by
+  have t := ipv6exts_table start pre b; rw [hd] at t; exact t
+
+/-- (2) `read` succeeds with `r` ⟹ `from_slice` succeeds with the same next ip number, `b` is the gathered
+    bytes followed by `rest`, exactly the gathered bytes were consumed, and they decode to the same struct -/
+theorem ipv6_exts_slice_of_read (start : Nat) (pre b : Bytes) (r : Reads.ExtsRead)
+    (hr : ((Reads.ipv6exts start).run (readerAt pre b)).2 = .ok r) :
+    ∃ e rest, Ext.Exts.fromSlice start b = .ok (e, r.next, rest) ∧ b = gathered r.got ++ rest ∧
+      ((Reads.ipv6exts start).run (readerAt pre b)).1 = readerAdv pre b (gathered r.got).length ∧
+      decodeGot r.got = some e := by
+  have t := ipv6exts_table start pre b
+  cases hd : Ext.Exts.fromSlice start b with
+  | ok x =>
+    obtain ⟨e, n, rest⟩ := x
+    rw [hd] at t
+    obtain ⟨got, t1, t2, t3, t4⟩ := t
+    rw [t1.snd] at hr
+    cases hr
+    have hl : (b.take (b.length - rest.length)).length = b.length - rest.length := by
+      simp [List.length_take]
+    exact ⟨e, rest, rfl, by rw [t3]; exact t2, by rw [t3, hl]; exact t1.fst, t4⟩
+  | error f =>
+    rw [hd] at t
+    cases f with
+    | panic => exact t.elim
+    | err se =>
+      cases se with
+      | len le => rw [t.snd] at hr; cases hr
+      | content c => obtain ⟨n, _, t⟩ := t; rw [t.snd] at hr; cases hr
+
+/-- (3) the content rejections coincide (same error), (4) a length error of `from_slice` (any header of
+    the chain cut short) is the reader's end of data, everything consumed -/
+theorem ipv6_exts_rejections_coincide (start : Nat) (pre b : Bytes) :
+    (∀ s, ((Reads.ipv6exts start).run (readerAt pre b)).2 = .error (.other s) ↔
+      ∃ c, Ext.Exts.fromSlice start b = .error (.err (.content c)) ∧ extsErrText c = s) ∧
+    (((Reads.ipv6exts start).run (readerAt pre b)).2 = .error (.io .unexpectedEof) ↔
+      ∃ le, Ext.Exts.fromSlice start b = .error (.err (.len le))) := by
+  have t := ipv6exts_table start pre b
+  cases hd : Ext.Exts.fromSlice start b with
+  | ok x =>
+    obtain ⟨e, n, rest⟩ := x
+    rw [hd] at t
+    obtain ⟨got, t1, _⟩ := t
+    refine ⟨fun s => ⟨fun hr => ?_, fun ⟨c, he, _⟩ => (by cases he)⟩, ⟨fun hr => ?_, fun ⟨e, he⟩ => (by cases he)⟩⟩
+    all_goals rw [t1.snd] at hr; cases hr
+  | error f =>
+    rw [hd] at t
+    cases f with
+    | panic => exact t.elim
+    | err se =>
+      cases se with
+      | len le =>
+        refine ⟨fun s => ⟨fun hr => ?_, fun ⟨c, he, _⟩ => (by cases he)⟩, ⟨fun _ => ⟨_, rfl⟩, fun _ => t.snd⟩⟩
+        rw [t.snd] at hr; cases hr
+      | content c =>
+        obtain ⟨n, _, t⟩ := t
+        refine ⟨fun s => ⟨fun hr => ?_, fun ⟨c', he, ht⟩ => ?_⟩, ⟨fun hr => ?_, fun ⟨le, he⟩ => (by cases he)⟩⟩
+        · rw [t.snd] at hr; cases hr; exact ⟨_, rfl, rfl⟩
+        · cases he; subst ht; exact t.snd
+        · rw [t.snd] at hr; cases hr
+
+/-- hop-by-hop options (8 bytes) → fragment header (8 bytes) → UDP, + 1 byte; the hypotheses of (1), (2)
+    and of the content row are satisfiable -/
+def exChain : Bytes := [44, 0, 1, 2, 3, 4, 5, 6, 17, 0, 0, 9, 0, 0, 0, 5, 0x77]
+theorem exChain_from_slice : Ext.Exts.fromSlice 0 exChain =
+    .ok ({ hopByHopOptions := some { nextHeader := 44, payload := [1, 2, 3, 4, 5, 6] },
+           destinationOptions := none, routing := none,
+           fragment := some { nextHeader := 17, fragmentOffset := 1, moreFragments := true, identification := 5 },
+           auth := none }, 17, [0x77]) := by
+  simp [Ext.Exts.fromSlice, exChain, Ext.rawSliceLen, Ext.rawToHeader, Ext.Raw.newRaw, sub, bAt,
+    Ext.fromSliceLoop, Ext.fragFromSlice, Ext.Exts.empty, be16, be32]
+example : ∃ r, ((Reads.ipv6exts 0).run (readerAt [0xff] exChain)).2 = .ok r ∧ r.next = 17 ∧
+    gathered r.got = exChain.take 16 := by
+  obtain ⟨got, h1, _, h3, _⟩ := ipv6_exts_read_of_slice 0 [0xff] exChain _ _ _ exChain_from_slice
+  exact ⟨_, h1.snd, rfl, h3⟩
+/-- a second hop-by-hop header behind the first one: `HopByHopNotAtStart` on both sides -/
+example : Ext.Exts.fromSlice 0 [0, 0, 1, 2, 3, 4, 5, 6, 9] = .error (.err (.content .hopByHopNotAtStart)) := by
+  simp [Ext.Exts.fromSlice, Ext.rawSliceLen, Ext.rawToHeader, Ext.Raw.newRaw, sub, bAt, Ext.fromSliceLoop]
+
 /-! #### the hypotheses of the theorems above are satisfiable (concrete packets, `pre` non-empty: the reader
   is in the middle of a stream; trailing bytes behind every header) -/
 
